@@ -238,6 +238,7 @@ func TraceHash(snaps []Snapshot) string {
 
 // Result of running a program against the implementation.
 type Result struct {
+	TraceBytes int // size of the canonical serialisation of all snapshots (cost of the model-side hash)
 	Obs    string // ok | err | panic
 	Err    string
 	Steps  int
@@ -307,7 +308,17 @@ func RunWith(p *Program, rec *Recorder) Result { return RunBuilt(Build(p, rec), 
 // RunBuilt executes already built options (the caller keeps b to inspect its buffers afterwards).
 func RunBuilt(b *Built, rec *Recorder) Result {
 	obs, msg := exec(b)
-	return Result{Obs: obs, Err: msg, Steps: len(rec.Snaps), Hash: TraceHash(rec.Snaps), Snaps: rec.Snaps, Trace: rec.Trace, Incons: rec.Incons}
+	tb := 0
+	for _, sn := range rec.Snaps {
+		tb += 8
+		for _, it := range sn.Data {
+			tb += 4 + len(it)
+		}
+		for _, it := range sn.Alt {
+			tb += 4 + len(it)
+		}
+	}
+	return Result{Obs: obs, Err: msg, Steps: len(rec.Snaps), Hash: TraceHash(rec.Snaps), Snaps: rec.Snaps, Trace: rec.Trace, Incons: rec.Incons, TraceBytes: tb}
 }
 
 // Run executes p with a recording debugger.
